@@ -14,6 +14,7 @@ mod k_val;
 mod k_hist;
 mod k_histf;
 mod k_fop;
+#[cfg(feature = "threads")]
 mod k_threads;
 mod k_valdiff;
 mod shrink;
@@ -42,9 +43,11 @@ fn run_line(line: &str) -> String {
         "stack" => k_crash::run_stack(&f[1..]),
         "valop" => k_val::run(&f[1..]),
         "valexpr" => k_val::run_expr(&f[1..]),
+        "chain3" => k_val::run_chain3(&f[1..]),
         "hist" => k_hist::run(&f[1..]),
         "histf" => k_histf::run(&f[1..]),
         "fop" => k_fop::run(&f[1..]),
+        #[cfg(feature = "threads")]
         "threads" => k_threads::run(&f[1..]),
         "valdiff" => k_valdiff::run(&f[1..]),
         "order" => k_order::run_order(&f[1..]),
@@ -87,11 +90,13 @@ fn main() {
                     "hist" => k_hist::gen(&mut rng, tier, i, &mut stats, profile),
                     "histf" => k_histf::gen(&mut rng, tier, i, &mut stats, profile),
                     "fop" => k_fop::gen(&mut rng, tier, i, &mut stats),
+                    #[cfg(feature = "threads")]
                     "threads" => k_threads::gen(&mut rng, tier, i, &mut stats),
                     "valdiff" => k_valdiff::gen(&mut rng, tier, i, &mut stats),
                     "fopx" => k_fop::gen_exhaustive(i + offset),
                     "valopx" => k_val::gen_exhaustive(i + offset),
                     "valexpr" => k_val::gen_expr(&mut rng, tier, i, &mut stats),
+                    "chain3" => k_val::gen_chain3(&mut rng, tier, i, &mut stats),
                     "order" => k_order::gen(&mut rng, tier, i, &mut stats),
                     "orderx" => k_order::gen_exhaustive(i),
                     "track" => k_order::gen_track(&mut rng, tier, i, &mut stats),
@@ -141,6 +146,7 @@ fn main() {
             let code = k_crash::stack_child(&args[2], args[3].parse().unwrap(), &args[4]);
             std::process::exit(code);
         }
+        #[cfg(feature = "threads")]
         "threadchild" => {
             let code = k_threads::child(args[2].parse().unwrap(), args[3].parse().unwrap());
             std::process::exit(code);
